@@ -12,3 +12,5 @@ REGISTRY.update(p_mpi.REGISTRY)
 REGISTRY.update(p_dimacs.REGISTRY)
 REGISTRY.update(p_conc.REGISTRY)
 REGISTRY.update(p_build.REGISTRY)
+
+RERUN_ON_REPLAY = {'C01', 'C02', 'C09', 'C05', 'C06', 'C12', 'C13', 'C14', 'C15', 'C16'}
